@@ -30,7 +30,7 @@ RoundSig(n, p) == LET b == BitLen(n) IN IF b <= p THEN <<n, 0>> ELSE <<RHE(n, b 
 Width(sub) == IntWidth(sub)
 SignOf(x) == IF x < 0 THEN -1 ELSE 1
 \* float / double value given as dyadic d = <<m, e>>: it is on the grid j / 2^(w-1) iff e >= -(w-1)
-GridJ(d, w) == d[1] * Pow2(d[2] + (w - 1))
+GridJ(d, w) == IF d[1] = 0 THEN 0 ELSE d[1] * Pow2(d[2] + (w - 1))
 OnGridW(d, w) == Len(d) = 2 /\ d[2] >= -(w - 1) /\ d[2] <= 2
 \* nearest integer to x * (2^(w-1) - 1); the float entry points round the product to 24 significant bits first (deviation D2)
 ScaleRound(j, w, T) ==
@@ -40,10 +40,15 @@ ScaleRound(j, w, T) ==
         k == (w - 1) - r[2]
         q == IF k <= 0 THEN r[1] * Pow2(-k) ELSE RHE(r[1], k)
     IN SignOf(j) * q
+MaxCode(w) == IF w = 32 THEN 2147483647 ELSE Pow2(w - 1) - 1
+MinCode(w) == IF w = 32 THEN -2147483647 - 1 ELSE -Pow2(w - 1)
 CodeOfFloat(T, w, d, norm, clip) ==
     IF ~norm THEN (IF d[2] >= 0 THEN d[1] * Pow2(d[2]) ELSE SignOf(d[1]) * RHE(Abs(d[1]), -d[2]))      \* unscaled: nearest integer
-    ELSE LET j == GridJ(d, w) IN
-         IF clip THEN CodeOfGridClip(w, j) ELSE ScaleRound(j, w, T)
+    ELSE IF clip THEN
+         \* scale 2^(w-1) and saturate (D1); |x| >= 1 is recognised on the dyadic so that 2^31 is never formed
+         IF BitLen(Abs(d[1])) + d[2] >= 1 THEN (IF d[1] > 0 THEN MaxCode(w) ELSE MinCode(w))      \* |x| >= 1
+         ELSE GridJ(d, w)
+    ELSE ScaleRound(GridJ(d, w), w, T)
 
 ExpCode(T, sub, v, norm, clip) ==
     LET w == Width(sub) IN
@@ -71,10 +76,13 @@ DecodeCode(sub, bytes, big) ==
 ExpValue(T, sub, c, norm) ==
     LET w == IF sub \in {S_ULAW, S_ALAW} THEN 16 ELSE Width(sub) IN
     IF T \in {"s", "i"} THEN CodeToInt(T, w, c)
+    ELSE IF c = -2147483647 - 1 THEN <<-1, 31 - (IF norm THEN w - 1 ELSE 0)>>       \* -2^31 itself (its magnitude is not a TLC integer)
     ELSE \* (float) of a code wider than 24 bits rounds to 24 significant bits first
          LET r == IF T = "f" THEN RoundSig(Abs(c), 24) ELSE <<Abs(c), 0>> IN
-         DyNorm(SignOf(c) * r[1], r[2] - (IF norm THEN w - 1 ELSE 0))
+         DySplit(DyNorm(SignOf(c) * r[1], r[2] - (IF norm THEN w - 1 ELSE 0)))
 
+\* the driver logs mantissas wider than 30 bits in two parts <<hi, lo, e>> (hi = |m| div 2^30, lo = |m| mod 2^30, both signed)
+DySplit(d) == IF Abs(d[1]) > 1073741823 THEN <<SignOf(d[1]) * (Abs(d[1]) \div 1073741824), SignOf(d[1]) * (Abs(d[1]) % 1073741824), d[2]>> ELSE d
 SampleBytes(sub) == IF sub \in {S_ULAW, S_ALAW, S_PCM_U8, S_PCM_S8} THEN 1 ELSE Width(sub) \div 8
 Chunk(bytes, i, n) == SubSeq(bytes, (i - 1) * n + 1, i * n)
 
